@@ -505,6 +505,20 @@ def run_history(rec, tap, rng, cid):
         rec.event("scripted prefix: plateau search, lower range bound "
                   "changed")
     elif rng.random() < .1:
+        # a request that fails inside a step for an unknown option name
+        # (TypeError, after earlier steps touched the data), the bad options
+        # are then taken back by a direct edit, fit
+        pp = copy.deepcopy(PIPES[3])
+        bad = {"correct_tip_offset": {"methode": "fit_constant_line"}} \
+            if rng.random() < .5 else \
+            {"correct_force_offset": {"method": "fit_constant_line"}}
+        queue = [("prep", pp, {}), ("fit", {}),
+                 ("prep", copy.deepcopy(pp), bad),
+                 ("edit", {"preprocessing_options": {}}), ("fit0",),
+                 ("fit", {})]
+        rec.event("scripted prefix: option name rejected inside a step, "
+                  "options taken back, fit")
+    elif rng.random() < .1:
         # E(delta) scan, another number of samples (plateau search off), scan
         ns2 = int(rng.choice([8, 11, 12]))
         chg = ("fit", {"optimal_fit_num_samples": ns2}) \
